@@ -22,12 +22,14 @@ def model_check(ctx):
         raise RuntimeError("vacuity: actions never taken in Backend_MC: %s" % dead)
 
 
-def generate(ctx, num):
+def generate(ctx, num, nrec=2):
     """Configurations with their expected recording summaries, from TLC (random initial states = random configs)."""
     sets = dict(THOROUGH_SETS)
+    if nrec != 2:
+        sets["NRec"] = str(nrec)
     cfg = tlc.cfg_with("Backend_Gen.cfg", sets, ctx.outdir)
     res = tlc.run(MODULE, cfg, ctx.outdir, workers=4, simulate=max(1, num // 4), depth=400, seed=ctx.seed, timeout=1800)
-    ctx.add_tlc(res, "Backend_Gen simulate num=%d" % num, "R-generate")
+    ctx.add_tlc(res, "Backend_Gen simulate num=%d NRec=%d" % (num, nrec), "R-generate")
     if not res.emitted:
         raise RuntimeError("Backend_Gen produced no configurations")
     return res.emitted
@@ -46,12 +48,15 @@ def run_for(ctx, pid, num_quick=160, num_thorough=4000, check_bytes=True):
                "same seed read in one request per recording")
     model_check(ctx)
     behs = generate(ctx, ctx.pick(num_quick, num_thorough))
+    # a third recording in the same process (whatever the first two left behind -- header dictionaries, template,
+    # caches, clocks -- the third is a recording like the first)
+    behs += generate(ctx, ctx.pick(max(16, num_quick // 5), num_thorough // 5), nrec=3)
     work = os.path.join(ctx.outdir, "raw")
     os.makedirs(work, exist_ok=True)
     seen = set()
     for n, beh in enumerate(behs):
         ab = beh["recs"][-1].get("abort") or {"n": 0}
-        key = tuple(sorted(beh["cfg"].items())) + ((("abort", ab["before"], ab["at"]),) if ab["n"] else ())
+        key = tuple(sorted(beh["cfg"].items())) + ((("abort", ab["before"], ab["at"]),) if ab["n"] else ()) + (("nrec", len(beh["recs"])),)
         if key in seen:
             continue
         seen.add(key)
